@@ -340,6 +340,9 @@ fn handle_eval_up_to_request(
         }
     }
 
+    // The file may not have been loaded or run in this session yet.
+    env.get_or_create_namespace(&path);
+
     match eval_up_to(&vfs_path, env, session, &items, offset) {
         Ok((v, pos)) => Response {
             kind: ResponseKind::Evaluate {
